@@ -102,7 +102,7 @@ def _pairs_kept(label, res, shape, scales, origin, dy, dx, want_mask, want_nativ
 def _gen_resize(rng, tier):
     nmax, mmax = gens.budget(tier, 6, 7), gens.budget(tier, 8, 10)
     k = 0
-    for rep in range(gens.budget(tier, 1, 8)):
+    for rep in range(gens.budget(tier, 4, 30)):
         for H in range(1, nmax + 1):
             for W in range(1, nmax + 1):
                 for h2 in range(1, mmax + 1):
@@ -123,7 +123,7 @@ def array2d_resized_centred(values, mask, new_shape, mask_pad_value, store_nativ
     (or the requested mask pad value), of the input ... When the parity of each dimension is preserved ... every surviving
     pixel keeps both its value and its scaled coordinate' -- Array2D.resized_from(new_shape, mask_pad_value) on masked
     arrays in both storage modes; bound: every input shape <= 6x6 (7x7) x every target shape <= 8x8 (10x10) (all parity
-    combinations, crop/pad mixed per axis), random masks and signed values, anisotropic scales, non-zero origins."""
+    combinations, crop/pad mixed per axis) x 4 (30) passes, random masks and signed values, anisotropic scales, non-zero origins."""
     import autoarray as aa
     mk = aa.Mask2D(mask=mask.copy(), pixel_scales=pixel_scales, origin=origin)
     arr = aa.Array2D(values=values.copy(), mask=mk, store_native=store_native)
@@ -157,7 +157,7 @@ def _gen_mask_resize(rng, tier):
             sc, og = _geom(rng, k)
             k += 1
             yield {"mask": m, "new_shape": new_shape, "pad_value": k % 2, "pixel_scales": sc, "origin": og}
-    for _ in range(gens.budget(tier, 1500, 30000)):
+    for _ in range(gens.budget(tier, 12000, 200000)):
         H, W = rng.randint(1, 7), rng.randint(1, 7)
         sc, og = _geom(rng)
         yield {"mask": _mask(rng, (H, W), min_unmasked=0), "new_shape": (rng.randint(1, 9), rng.randint(1, 9)),
@@ -170,7 +170,7 @@ def mask2d_resized_centred(mask, new_shape, pad_value, pixel_scales, origin):
     """C14: 'Resizing an array or mask to a new shape yields the centred crop, or the centred embedding padded with zeros (or
     the requested mask pad value), of the input ... enlarging then shrinking back loses nothing ... When the parity of each
     dimension is preserved ... every surviving pixel keeps ... its scaled coordinate' -- Mask2D.resized_from(new_shape,
-    pad_value); bound: every mask of 8 (11) shapes <= 6 (9) cells x 11 targets + 1500 (30000) random masks <= 7x7 to random
+    pad_value); bound: every mask of 8 (11) shapes <= 6 (9) cells x 11 targets + 12000 (200000) random masks <= 7x7 to random
     targets <= 9x9, pad value 0/1, masks with unmasked pixels on the outer ring included."""
     import autoarray as aa
     H, W = mask.shape
@@ -210,7 +210,7 @@ def mask2d_resized_centred(mask, new_shape, pad_value, pixel_scales, origin):
 def _gen_enlarge(rng, tier):
     nmax, grow = gens.budget(tier, 6, 7), gens.budget(tier, 4, 5)
     k = 0
-    for rep in range(gens.budget(tier, 1, 6)):
+    for rep in range(gens.budget(tier, 5, 40)):
         for H in range(1, nmax + 1):
             for W in range(1, nmax + 1):
                 for gy in range(0, grow + 1):
@@ -226,8 +226,8 @@ def _gen_enlarge(rng, tier):
 def enlarge_then_shrink_identity(values, mask, big_shape, mask_pad_value, store_native, pixel_scales, origin):
     """C14: 'enlarging then shrinking back loses nothing' -- Array2D.resized_from(bigger).resized_from(original shape) returns
     the same values, mask, pixel scales, origin and therefore the same (coordinate, value) pairs; bound: every shape <= 6x6
-    (7x7) enlarged by 0..4 (0..5) pixels per axis independently (every parity combination), masked arrays, both storage
-    modes, mask pad value 0/1."""
+    (7x7) enlarged by 0..4 (0..5) pixels per axis independently (every parity combination) x 5 (40) passes, masked arrays, both
+    storage modes, mask pad value 0/1."""
     import autoarray as aa
     mk = aa.Mask2D(mask=mask.copy(), pixel_scales=pixel_scales, origin=origin)
     arr = aa.Array2D(values=values.copy(), mask=mk, store_native=store_native)
@@ -253,7 +253,7 @@ _KERNELS = [(1, 1), (3, 3), (1, 3), (3, 1), (5, 3), (3, 5), (5, 5), (1, 5), (7, 
 def _gen_padtrim(rng, tier):
     nmax = gens.budget(tier, 6, 8)
     k = 0
-    for rep in range(gens.budget(tier, 2, 12)):
+    for rep in range(gens.budget(tier, 7, 60)):
         for H in range(1, nmax + 1):
             for W in range(1, nmax + 1):
                 for ks in _KERNELS:
@@ -271,7 +271,7 @@ def pad_then_trim_identity(values, mask, kernel_shape, mask_pad_value, store_nat
     padding ... every surviving pixel keeps both its value and its scaled coordinate' -- Array2D.padded_before_convolution_from
     (shape n+k-1, centred embedding, zeros / mask pad value outside), then trimmed_after_convolution_from and
     Mask2D.trimmed_array_from give back the input; bound: every shape <= 6x6 (8x8) x 12 odd kernel shapes (1..7 per axis,
-    non-square) x 2 (12) passes of random masks/values, both storage modes, pad value 0/1, anisotropic scales, non-zero origins."""
+    non-square) x 7 (60) passes of random masks/values, both storage modes, pad value 0/1, anisotropic scales, non-zero origins."""
     import autoarray as aa
     H, W = mask.shape
     ky, kx = kernel_shape
@@ -332,7 +332,7 @@ def pad_then_trim_identity(values, mask, kernel_shape, mask_pad_value, store_nat
 def _gen_imaging(rng, tier):
     k = 0
     kernels = [(3, 3), (1, 3), (3, 1), (5, 3), (3, 5), (5, 5), (1, 1)]
-    for rep in range(gens.budget(tier, 3, 40)):
+    for rep in range(gens.budget(tier, 9, 100)):
         for H in range(1, 7):
             for W in range(1, 7):
                 for ks in kernels:
@@ -369,7 +369,7 @@ def imaging_auto_padding_triples(data, noise, mask, psf, pixel_scales, origin, v
     when a mask is applied to imaging data whose blurring region leaves the frame - every surviving pixel keeps both its value
     and its scaled coordinate, so the (coordinate, data, noise) triples of unmasked pixels are unchanged' -- Imaging.apply_mask
     and Imaging(..., pad_for_convolver=True): .data, .noise_map, .grids.uniform / .grid, .mask, and the dataset-level
-    trimmed_after_convolution_from; bound: every shape <= 6x6 x 7 odd PSF shapes <= 5x5 x 3 (40) passes of random masks
+    trimmed_after_convolution_from; bound: every shape <= 6x6 x 7 odd PSF shapes <= 5x5 x 9 (100) passes of random masks
     (unmasked pixels on the outer ring and masks needing no padding), anisotropic scales, non-zero origins."""
     import autoarray as aa
     H, W = mask.shape
@@ -437,7 +437,7 @@ def _gen_zoom(rng, tier):
             sc, og = _geom(rng, k)
             k += 1
             yield {"values": _vals(rng, m.shape), "mask": m, "buffer": buffer, "pixel_scales": sc, "origin": og}
-    for _ in range(gens.budget(tier, 1200, 30000)):
+    for _ in range(gens.budget(tier, 2500, 50000)):
         H, W = rng.randint(1, 9), rng.randint(1, 9)
         m = _mask(rng, (H, W), p=rng.choice([0.2, 0.6, 0.9, 0.97]))
         sc, og = _geom(rng)
@@ -454,7 +454,7 @@ def zoom_window_contains_unmasked(values, mask, buffer, pixel_scales, origin):
     """C14: 'Zooming around a mask returns a window containing every unmasked pixel with its value' -- Mask2D.zoom_region /
     zoom_shape_native / zoom_mask_unmasked and Array2D.zoomed_around_mask(buffer): the result is one translated window of the
     native array (rows/columns beyond the frame unconstrained) that shows every unmasked pixel with its value; bound: every
-    mask of 8 (11) shapes <= 6 (10) cells x buffers 0,1,2 + 1200 (30000) random masks <= 9x9 (bounding boxes touching the frame,
+    mask of 8 (11) shapes <= 6 (10) cells x buffers 0,1,2 + 2500 (50000) random masks <= 9x9 (bounding boxes touching the frame,
     strongly non-square boxes whose square zoom region leaves the frame), buffers 0..3, distinct signed values."""
     import autoarray as aa
     H, W = mask.shape
